@@ -416,6 +416,77 @@ def same_filter(rep, F, tag):
     R.guard(body)
 
 
+# scratch buffers of the cones: every reader overwrites them before reading within the same call
+SCRATCH = {
+    'PSDTriangleCone': {'workmat1', 'workmat2', 'workmat3', 'workvec', 'Eig', 'SVD', 'chol1', 'chol2'},
+    'GenPowerCone': {'work', 'work_pb'},
+}
+CONES = ('ZeroCone', 'NonnegativeCone', 'SecondOrderCone', 'PSDTriangleCone', 'ExponentialCone', 'PowerCone', 'GenPowerCone')
+
+
+def one_scaling_state(rep, F, E, tag):
+    R = rep.rule('C11.R5', 'one scaling state per factorisation: nothing between kktsystem.update and the last kktsystem.solve of an '
+                           'iteration writes a field that get_Hs / the sparse update / mul_Hs read')
+
+    def body():
+        s = shared.solve_fn(F)
+        h, lb = shared.main_loop(s)
+        ku = [c for c in s.calls if c.callee.name == 'update' and (c.callee.trait or '').endswith('KKTSystem') and c.bb in lb]
+        ks = [c for c in s.calls if c.callee.name == 'solve' and (c.callee.trait or '').endswith('KKTSystem') and c.bb in lb]
+        sc = [c for c in s.calls if c.callee.name == 'scale_cones' and c.bb in lb]
+        if len(ku) != 1 or len(ks) < 2 or len(sc) != 1:
+            raise AnchorError('kktsystem.update / solve / scale_cones sites in the main loop: %d/%d/%d' % (len(ku), len(ks), len(sc)))
+        R.check(s.dominates(sc[0].bb, ku[0].bb), 'scale-before-update' + tag, 'scale_cones does not precede kktsystem.update', s.loc(ku[0].sp))
+        for k in ks:
+            R.check(s.dominates(ku[0].bb, k.bb), 'update-before-solve|%d%s' % (k.line, tag), 'kktsystem.solve is not preceded by kktsystem.update', s.loc(k.sp))
+        last = ks[-1]
+        reg = region_between(s, ku[0].bb, last.bb, avoid=[h]) - {ku[0].bb}
+        n = 0
+        for K in CONES:
+            readers = F.find(name='get_Hs', adt=K) + F.find(name='mul_Hs', adt=K) + [g for g in F.fns if g.name == 'csc_update_sparsecone' and K in (g.impl_self or '')]
+            if not readers:
+                continue
+            read = set()
+            for g in readers:
+                for r, ch in E.R[g.key]:
+                    nc = norm_chain(ch)
+                    if r[0] == 'param' and nc and nc[0][0] == K:
+                        read.add(nc)
+            leaves = {q for q in read if not any(p != q and p[:len(q)] == q for p in read)}
+            scratch = SCRATCH.get(K, set())
+            leaves = {q for q in leaves if not any(e[1] in scratch for e in q)}
+            n += 1
+            for bi in sorted(reg):
+                c = s.call_at.get(bi)
+                if c is None:
+                    continue
+                w, _ = E.call_effects(s, c)
+                hit = set()
+                for r, ch in w:
+                    nc = norm_chain(ch)
+                    for i, e in enumerate(nc):
+                        if e[0] == K:
+                            sub = nc[i:]
+                            if any(e2[1] in scratch for e2 in sub):
+                                continue
+                            for q in leaves:
+                                if sub[:len(q)] == q or (q[:len(sub)] == sub and len(sub) >= 2):
+                                    hit.add('.'.join(x[1] for x in q))
+                for fld in sorted(hit):
+                    R.bad('state-write|%s|%s|%s%s' % (K, fld, c.callee.name, tag),
+                          '%s (between kktsystem.update and the last kktsystem.solve) writes %s.%s, which the KKT block / slack recovery '
+                          'read: the factorised matrix and the operator used afterwards would come from different scaling states' % (c.callee.name, K, fld), s.loc(c.sp))
+            R.ok('state-stable|%s%s' % (K, tag), {'read_leaves': len(leaves)})
+        R.check(n >= 5, 'cone-types' + tag, 'only %d cone types analysed' % n)
+        # the slack recovery uses the cones' operator after the linear solve
+        kk = F.one(name='solve', adt='DefaultKKTSystem')
+        mh = [c for c in kk.calls if c.callee.name == 'mul_Hs']
+        so = [c for c in kk.calls if c.callee.name == 'solve' and 'KKTSolver' in (c.callee.trait or c.callee.key or '')]
+        R.check(len(mh) >= 1, 'slack-recovery-uses-mul_Hs' + tag, 'KKTSystem::solve does not recover the slack step with cones.mul_Hs', kk.loc())
+
+    R.guard(body)
+
+
 def run(ctx, rep, tier):
     for cfg in CONFIGS:
         F = ctx.facts(cfg)
@@ -426,6 +497,7 @@ def run(ctx, rep, tier):
         sign_pattern(rep, F, tag)
         restore_pairing(rep, F, E, tag)
         same_filter(rep, F, tag)
+        one_scaling_state(rep, F, E, tag)
         from . import c05
         # R5 (shared): identity scaling rewrites everything the KKT update reads
     from . import c05
